@@ -98,6 +98,18 @@ def run(idx: Index, rep: Report, tier: str) -> None:
     ps = idx.func("model.walkers.dag.DagWalker._process_stack")
     ps_body = [s for s in ps.node.body if not (isinstance(s, ast.Expr) and isinstance(s.value, ast.Constant))]
     drains = len(ps_body) == 1 and isinstance(ps_body[0], ast.While) and norm(ps_body[0].test) == "self.stack" and not any(isinstance(x, (ast.Break, ast.Return)) for x in ast.walk(ps_body[0])) and any(isinstance(c, ast.Call) and call_name(c) == "pop" and norm(c.func.value) == "self.stack" for c in ast.walk(ps_body[0]))
+    # … or the loop sits in a try whose handler for every exception empties the stack and re-raises: then the method
+    # itself raises only with a cleared stack (what iter_walk's own try/except otherwise has to guarantee)
+    ps_self_cleaning = False
+    if not drains and len(ps_body) == 1 and isinstance(ps_body[0], ast.Try) and not ps_body[0].orelse and len(ps_body[0].body) == 1 and isinstance(ps_body[0].body[0], ast.While):
+        w_ = ps_body[0].body[0]
+        loop_ok = norm(w_.test) == "self.stack" and not any(isinstance(x, (ast.Break, ast.Return)) for x in ast.walk(w_)) and any(isinstance(c, ast.Call) and call_name(c) == "pop" and norm(c.func.value) == "self.stack" for c in ast.walk(w_))
+        hs = ps_body[0].handlers
+        catch_all = any(h.type is None or norm(h.type) == "BaseException" for h in hs)
+        each_clears = all(any(_is_reset_of(st, "stack") for st in h.body) and any(isinstance(st, ast.Raise) and st.exc is None for st in h.body) for h in hs)
+        fin_clears = any(_is_reset_of(st, "stack") for st in ps_body[0].finalbody)
+        if loop_ok and ((catch_all and each_clears) or fin_clears):
+            drains = ps_self_cleaning = True
     rep.check(drains, rule1, "DagWalker._process_stack returns normally only with an empty stack", ps.loc(), construct="while self.stack: ... self.stack.pop()", function=ps.qualname)
     drain_calls = {n for n, c in cfg_nodes_with_call(cfg, "_process_stack")} if drains else set()
     # a private helper of the walker that wraps _process_stack and empties the stack before letting an exception
@@ -118,6 +130,8 @@ def run(idx: Index, rep: Report, tier: str) -> None:
             safe_helpers.add(hname)
             rep.note_function(h.qualname)
     safe_calls = {n for hn in safe_helpers for n, c in cfg_nodes_with_call(cfg, hn)}
+    if ps_self_cleaning:
+        safe_calls |= {n for n, c in cfg_nodes_with_call(cfg, "_process_stack")}
     drain_calls |= safe_calls
 
     def after_drain(node, succ, label, binds):
